@@ -18,7 +18,7 @@ AX = ["i", "j", "k", "l"]
 
 # ------------------------------------------------------------------ generation
 def gen_case(rng, max_funcs=4, allow_internal=True, allow_reduce=True, allow_nomapspec=True,
-             allow_tuple=True, max_roots=3, allow_autogen=False, sizes=None):
+             allow_tuple=True, max_roots=3, allow_autogen=False, sizes=None, allow_bound=False):
     sizes = sizes or {a: rng.randint(1, 3) for a in AX}
     arrays = {}  # name -> tuple of axis names (fixed by producer)
     roots = {}
@@ -96,6 +96,12 @@ def gen_case(rng, max_funcs=4, allow_internal=True, allow_reduce=True, allow_nom
         })
         for o in outnames:
             arrays[o] = tuple(out_axes)
+    if allow_bound:
+        # bound values on parameters that are delivered whole (a bound parameter may not appear in a MapSpec)
+        for f in funcs:
+            for p in f["params"]:
+                if f["modes"].get(p, "whole") == "whole" and p in roots and rng.random() < 0.45:
+                    f.setdefault("bound", {})[p] = f"B{f['name']}{p}"
     # an array-returning function without MapSpec needs at least one consumer that indexes it through a MapSpec;
     # otherwise it is just a value: make it a scalar function again
     for f in funcs:
@@ -105,7 +111,7 @@ def gen_case(rng, max_funcs=4, allow_internal=True, allow_reduce=True, allow_nom
                 f["autogen"] = True
             else:
                 f["out_axes"], f["internal"], f["internal_shape"], f["ishape_via"] = [], [], [], None
-    used = {p for f in funcs for p in f["params"]}
+    used = {p for f in funcs for p in f["params"] if p not in f.get("bound", {})}
     roots = {k: v for k, v in roots.items() if k in used}
     return {"sizes": sizes, "roots": roots, "funcs": funcs}
 
@@ -154,6 +160,8 @@ def build_funcs(case, log=None, fault=None, tag=None, cache=None, extra=None):
             kw["internal_shape"] = tuple(f["internal_shape"])
         if cache and f["name"] in cache:
             kw["cache"] = True
+        if f.get("bound"):
+            kw["bound"] = dict(f["bound"])
         if extra and f["name"] in extra:
             kw.update(extra[f["name"]])
         outn = tuple(f["outs"]) if len(f["outs"]) > 1 else f["outs"][0]
@@ -190,8 +198,9 @@ def oracle(case, inputs=None):
     for f in case["funcs"]:
         nout = len(f["outs"])
         calls[f["name"]] = []
+        bnd = f.get("bound") or {}
         if f["mapspec"] is None:
-            kw = {p: env[p] for p in f["params"]}
+            kw = {p: (bnd[p] if p in bnd else env[p]) for p in f["params"]}
             t = probes.term(f["name"], f["params"], kw)
             calls[f["name"]].append(((), t))
             for o, on in enumerate(f["outs"]):
@@ -214,7 +223,9 @@ def oracle(case, inputs=None):
             kw = {}
             for p in f["params"]:
                 m = f["modes"][p]
-                if m == "whole":
+                if p in bnd:
+                    kw[p] = bnd[p]
+                elif m == "whole":
                     kw[p] = env[p]
                 else:
                     kw[p] = env[p][tuple(slice(None) if a is None else ids[a] for a in m)]
@@ -234,14 +245,18 @@ def oracle(case, inputs=None):
 
 def call_kwargs(case, env, f, ext_idx):
     """Keyword arguments (pipeline-level names) of the invocation of f at external index ext_idx."""
+    bnd = f.get("bound") or {}
     if f["mapspec"] is None:
-        return {p: env[p] for p in f["params"]}
+        return {p: (bnd[p] if p in bnd else env[p]) for p in f["params"]}
     ext_axes = [a for a in f["out_axes"] if a not in f["internal"]]
     ids = dict(zip(ext_axes, ext_idx))
     kw = {}
     for p in f["params"]:
         m = f["modes"][p]
-        kw[p] = env[p] if m == "whole" else env[p][tuple(slice(None) if a is None else ids[a] for a in m)]
+        if p in bnd:
+            kw[p] = bnd[p]
+        else:
+            kw[p] = env[p] if m == "whole" else env[p][tuple(slice(None) if a is None else ids[a] for a in m)]
     return kw
 
 
@@ -334,7 +349,7 @@ def nontrivial(case):
 
 def signature(case):
     shapes = {n: [case["sizes"][a] for a in r["axes"]] for n, r in case["roots"].items()}
-    return repr(([f["mapspec"] for f in case["funcs"]], [f["internal_shape"] for f in case["funcs"]],
+    return repr(([f["mapspec"] for f in case["funcs"]], [f["internal_shape"] for f in case["funcs"]], [sorted(f.get("bound", {})) for f in case["funcs"]],
                  sorted(shapes.items()), sorted((n, r["kind"]) for n, r in case["roots"].items())))
 
 
